@@ -65,7 +65,7 @@ CHECKS = {
         "digits) with L one hex digit, the format-4 block is (4,L,PIN,A..,random), rebuilding returns the PIN, and for any "
         "cipher with D(E(x))=x the encrypted forms decrypt to the PIN (Props/C13.lean). Tied to /repo by differential "
         "execution over all PIN x PAN lengths with digit sweeps, supplied/absent fills and 2-/3-key TDES, AES-128/192/256 "
-        "keys; ciphertexts checked against a from-scratch DES reference (AES: direct call of `cryptography`).",
+        "keys; ciphertexts checked against a from-scratch DES reference (AES: direct call of `cryptography`). In addition a SOURCE TIE: harness/pytrans.py translates the current Python text of Iso0PinBlock.to_bytes / from_bytes and Iso4PinBlock.to_bytes / from_bytes into Lean (Gen/Src.lean) on every run and lean/Cardutil/SrcTie/Pin.lean proves, for all inputs, that the translation equals the model (and restates the property for the translated code: C13_source_iso0, C13_source_iso4); when the source changes so that this no longer checks, the check runs its thorough generators (time-boxed) before answering (the correspondence remains the deciding tie).",
         "Trusted: Lean kernel; standard axioms; hand-written model validated by correspondence; refdes.py (FIPS KAT self-test); "
         "AES from `cryptography`; D(E(x))=x is an explicit hypothesis; fill freshness observed, not proved.",
         "DESIGN.md §8 C13"),
@@ -76,7 +76,7 @@ CHECKS = {
         "digits per the two-scan rule; component combination is XOR (permutation-invariant, duplicates cancel) and renders "
         "as 32 hex digits (Props/C14.lean). Tied to /repo by differential execution with real keys found for second-scan "
         "classes 0..2(3), chosen ciphertexts through a cipher stub for classes 3..4, key-component lists, KCV and encrypted "
-        "ZMK, all against a from-scratch DES/3DES reference. In addition a SOURCE TIE: harness/pytrans.py translates the current Python text of pinblock._get_tsp into Lean (Gen/Src.lean) on every run and lean/Cardutil/SrcTie/Misc.lean proves, for all inputs, that the translation equals the model (and restates the property for the translated code); when the source changes so that this no longer checks, the check runs its thorough generators before answering (the correspondence remains the deciding tie).",
+        "ZMK, all against a from-scratch DES/3DES reference. In addition a SOURCE TIE: harness/pytrans.py translates the current Python text of pinblock._get_tsp, the decimalisation at the end of calculate_pvv and the combination loop of key.get_zone_master_key (fragments around the cipher calls) into Lean (Gen/Src.lean) on every run and lean/Cardutil/SrcTie/Misc.lean and Pin.lean prove, for all inputs, that the translation equals the model (and restates the property for the translated code); when the source changes so that this no longer checks, the check runs its thorough generators before answering (the correspondence remains the deciding tie).",
         "Trusted: as C13; the cipher stub replaces `Cipher` inside cardutil.pinblock only for the chosen-ciphertext cases.",
         "DESIGN.md §8 C14"),
     'C15': (
